@@ -244,7 +244,7 @@ def run(tier, seed):
                   "addressing": "symbolic source, destination, priority", "corruption": "every position 2..19 x every non-zero delta (symbolic)"}
     rep.stubs = ["_call_encode_function returns n symbolic bytes in the framing harness (codec = C02/C09)", "_decode replaced by a recorder",
                  "receive-side prefixes prepended: '%s' (Yacht Devices), '%s' (Actisense)" % (wire.YD_PREFIX, wire.ACT_PREFIX)]
-    rep.outside = ["serial-port level behaviour", "marker bytes inside USB packets (C20)"]
+    rep.outside = ["serial-port level behaviour", "marker bytes inside USB packets (C20)", "receive-path segmentations with more than one cut (C12)"]
     jobs = []
     for fmt in FMTS:
         for n in range(1, 9):
@@ -255,6 +255,12 @@ def run(tier, seed):
     from .common import run_jobs
     run_jobs(rep, _worker, jobs, timeout_s=300 if tier == "quick" else 3000)
     run_jobs(rep, _public_worker, pub, timeout_s=300 if tier == "quick" else 3000)
+    # (R) a concatenation of packets is split back into the same packets by the matching receive path: the four clients' real
+    # receive loops on streams of encoder packets cut at every position (the harness of C12, one cut per run)
+    from . import c12, aio
+    c12._G.update(R=loader.load(with_io=True), tier=tier)
+    rparts = run_jobs(rep, c12._worker, [(c, "cut1") for c in aio.CLIENTS], timeout_s=600)
+    rep.count("receive_path_split_runs", sum(p_.get("n", 0) for p_ in rparts if p_))
     rep.count("framing_jobs", len(jobs))
     rep.count("public_path_jobs", len(pub))
     rep.coverage.update(explanation="bounded symbolic verification of the four wire formats: %d framing jobs (format x data length) with symbolic bytes and addressing, "
@@ -264,6 +270,9 @@ def run(tier, seed):
 
 
 def replay(r):
+    if r.get("kind") == "delivery":
+        from . import c12
+        return c12.replay(r)
     from .plain import plain
     N = plain()
     if r["kind"] in ("frame", "corrupt"):
